@@ -55,6 +55,7 @@ const Stats& stats();
 // misuse recorded by the ledger (first one): NULL if none
 const char* violation();
 const char* violation_kind();
+void clear_violation();             // after a harness has reported it (softly) and wants to go on
 int open_owned_count();             // descriptors opened by the code under test and still open
 std::vector<int> open_owned();
 void close_leftovers();             // harness cleanup
